@@ -53,6 +53,10 @@ def ev(e, c, r, callee=None):
         return (~v) & 0xFF if not isinstance(strip_casts(e[2])[1] if strip_casts(e[2])[0] == "k" else 0, bool) else int(not v)
     if k == "cast":
         return ev(e[1], c, r, callee)
+    if k == "ref":
+        return ev(e[1], c, r, callee)
+    if k == "proj" and e[2] and all(q == "*" for q in e[2]):
+        return ev(e[1], c, r, callee)             # `*&x` (a match guard binds by reference)
     if k == "bin":
         op = e[1]
         a, b = ev(e[2], c, r, callee), ev(e[3], c, r, callee)
